@@ -52,9 +52,9 @@ Proof. intros [-> | ->]; cbn; lia. Qed.
 Definition plain_letter (c : letter) : bool :=
   match c with LC | LX | Lf | Ld => false | _ => true end.
 
-Lemma field_roundtrip c fm st a r :
-  0 <= fm -> plain_letter c = true -> wf_field P c fm st a = true ->
-  dec_field P c fm st (fst (enc_field P c fm st a) ++ r) = Some (a, r, snd (enc_field P c fm st a)) /\
+Lemma field_roundtrip ub c fm st a r :
+  0 <= fm -> plain_letter c = true -> wf_field P ub c fm st a = true ->
+  dec_field P ub c fm st (fst (enc_field P c fm st a) ++ r) = Some (a, r, snd (enc_field P c fm st a)) /\
   (forall F, map_sub F a = a).
 Proof.
   intros Hfm Hc Hw. pose proof params_facts as F.
@@ -68,7 +68,8 @@ Proof.
   - (* p *) apply inrange_spec in Hw. rewrite get_put_byte, Z.mod_small by lia.
     repeat f_equal; lia.
   - (* D *) apply inrange_spec in Hw. now rewrite get_put_byte, Z.mod_small by lia.
-  - (* b *) apply inrange_spec in Hw. rewrite get_put_byte. now rewrite sext8_id by lia.
+  - (* b *) destruct ub; apply inrange_spec in Hw; rewrite get_put_byte;
+    [now rewrite Z.mod_small by lia | now rewrite sext8_id by lia].
   - (* h *) apply inrange_spec in Hw. now rewrite get_put_hint, Z.mod_small by lia.
   - (* w *) apply int32b_spec in Hw. rewrite get_put_sint.
     change (sext32 (z mod 4294967296)) with (c_int z). now rewrite c_int_id.
@@ -94,8 +95,8 @@ Proof.
     destruct (Z.ltb_spec z 0); cbn [Z.eqb]; repeat f_equal; lia.
 Qed.
 
-Lemma field_nonempty c fm st a :
-  (fm = 0 \/ fm = 1) -> plain_letter c = true -> wf_field P c fm st a = true ->
+Lemma field_nonempty ub c fm st a :
+  (fm = 0 \/ fm = 1) -> plain_letter c = true -> wf_field P ub c fm st a = true ->
   (1 <= length (fst (enc_field P c fm st a)))%nat.
 Proof.
   intros Hfm Hc Hw.
@@ -115,6 +116,7 @@ Section Args.
   Variable D : Z -> bytes -> option (node * bytes * Z).
   Variable row : info_row.
   Variable fm : Z.
+  Variable ub : bool.
   Variable is_prog : bool.
   Hypothesis Hfm : 0 <= fm.
 
@@ -128,9 +130,9 @@ Section Args.
 
   Lemma args_roundtrip args : forall si st rest,
     Forall sub_ok args ->
-    wf_args P (wf_node P) (enc_node P) row fm si args st = true ->
+    wf_args P (wf_node P) (enc_node P) row fm ub si args st = true ->
     Z.of_nat (length (fst (enc_args P (enc_node P) row fm is_prog si args st))) + Z.of_nat (length rest) <= lim ->
-    dec_args P D row fm (length args) si st
+    dec_args P D row fm ub (length args) si st
              (fst (enc_args P (enc_node P) row fm is_prog si args st) ++ rest) =
     Some (zx_args (zero_x P) row si args, rest,
           snd (enc_args P (enc_node P) row fm is_prog si args st)).
@@ -143,7 +145,7 @@ Section Args.
       (* the plain letters *)
       match type of EL with _ = ?c =>
       apply andb_true_iff in Hwf; destruct Hwf as [Hw1 Hw2];
-      destruct (field_roundtrip c fm st a
+      destruct (field_roundtrip ub c fm st a
                   (fst (enc_args P (enc_node P) row fm is_prog (S si) args
                                  (snd (enc_field P c fm st a))) ++ rest) Hfm eq_refl Hw1) as [Hr Hm];
       destruct (enc_field P c fm st a) as [b1 st1] eqn:EF; cbn [fst snd] in *;
@@ -159,7 +161,7 @@ Section Args.
       destruct (enc_args P (enc_node P) row fm is_prog (S si) args st) as [b2 st2] eqn:EA.
       cbn [fst snd] in *.
       specialize (IH (S si) st rest Hargs Hwf). rewrite EA in IH. cbn [fst snd] in IH.
-      assert (HX : forall v, dec_field P LX fm st ((put_sint v ++ b2) ++ rest)
+      assert (HX : forall v, dec_field P ub LX fm st ((put_sint v ++ b2) ++ rest)
                              = Some (Int 0, b2 ++ rest, st)).
       { intros v. cbn [dec_field]. unfold get_int. cbn [Z.eqb].
         rewrite <- app_assoc, get_put_sint. reflexivity. }
@@ -204,9 +206,9 @@ Proof.
   rewrite app_length. cbn. lia.
 Qed.
 
-Lemma args_count row fm is_prog args : forall si st,
+Lemma args_count row fm ub is_prog args : forall si st,
   fm = 0 \/ fm = 1 ->
-  wf_args P (wf_node P) (enc_node P) row fm si args st = true ->
+  wf_args P (wf_node P) (enc_node P) row fm ub si args st = true ->
   (length args <= length (fst (enc_args P (enc_node P) row fm is_prog si args st)))%nat.
 Proof.
   induction args as [|a args IH]; intros si st Hfm Hwf; [cbn; lia|].
@@ -214,7 +216,7 @@ Proof.
   destruct (letter_at row si) eqn:EL;
   try (match type of EL with _ = ?c =>
       apply andb_true_iff in Hwf; destruct Hwf as [Hw1 Hw2];
-      pose proof (field_nonempty c fm st a Hfm eq_refl Hw1) as Hn;
+      pose proof (field_nonempty ub c fm st a Hfm eq_refl Hw1) as Hn;
       destruct (enc_field P c fm st a) as [b1 st1] eqn:EF; cbn [fst snd] in *;
       specialize (IH (S si) st1 Hfm Hw2);
       destruct (enc_args P (enc_node P) row fm is_prog (S si) args st1) as [b2 st2];
@@ -306,7 +308,7 @@ Proof.
     specialize (IHargs a Hin). destruct a; cbn [sub_ok arg_Q] in *; try exact I.
     intros st0 rest0 Hw0 Hl0. apply IHargs; [|exact Hw0|lia].
     pose proof (sub_depth_le args (Sub n) Hin) as Hle. cbn [sub_depth] in Hle. lia. }
-  assert (Hargsrt := args_roundtrip (lim - fp_immed_forms P) (dec_node P lim f) row fm
+  assert (Hargsrt := args_roundtrip (lim - fp_immed_forms P) (dec_node P lim f) row fm (tag =? t_Char P)
                        (tag =? t_Prog P) ltac:(lia) args 0%nat st rest Hsub H6).
   rewrite EA in Hargsrt. cbn [fst snd] in Hargsrt.
   destruct (Z.eqb_spec (r_argc row) (-1)) as [Hn|Hn].
@@ -316,7 +318,7 @@ Proof.
     destruct (Z.ltb_spec (Z.of_nat (length args)) 0); [lia|].
     assert (Hcnt : Z.of_nat (length args) <= lim).
     { destruct (Z_lt_le_dec fm 2) as [Hlo|Hhi].
-      - pose proof (args_count row fm (tag =? t_Prog P) args 0%nat st ltac:(lia) H6) as Hc.
+      - pose proof (args_count row fm (tag =? t_Char P) (tag =? t_Prog P) args 0%nat st ltac:(lia) H6) as Hc.
         rewrite EA in Hc. cbn [fst] in Hc.
         rewrite !app_length in Hlen. lia.
       - unfold fits in H3.
